@@ -11,6 +11,7 @@ tv_accept, next to the harness' own independent oracle."""
 import itertools
 import os
 import re
+import shutil
 import sys
 import time
 from concurrent.futures import ThreadPoolExecutor
@@ -23,6 +24,144 @@ import lockgen_ast  # noqa: E402
 
 KINDS = ["pod", "str", "vec"]
 PROP_FILES = ("Properties.v", "PropertiesTVal.v", "LocksetProp.v")
+
+
+# ------------------------------------------------------------------------------ inventory closure
+# Every declaration of the two anchored headers (class members as written, namespace-level functions; regenerated from the clang
+# AST on every run) -> theorems + harness operations that cover it, or an explicit out-of-scope reason.  The check fails closed
+# on a declaration missing here, an entry whose declaration vanished/changed, and a covered entry with zero executions.
+_B = "TransactionalBuffer"
+_V = "TransactionalValue"
+BK = ("pod", "str", "vec")                 # payload kinds every covered buffer member must be executed with
+VK = ("pod", "str", "vec", "het")          # ... value member (het = TransactionalValue<std::string> fed const char*)
+_B_ALL = [_B + "::push_back(const T&)", _B + "::push_back(T&&)", _B + "::consume()", _B + "::size()", _B + "::empty()"]
+_V_ALL = [_V + "::operator=(const OtherType&)", _V + "::update()", _V + "::get()", _V + "::ref()"]
+COVER = {
+    (_B, "field", "buffer", "std::vector<T>"): dict(thms=["tbuf_linear", "lockset_race_free", "tbuf_methods_atomic"], ops=_B_ALL, kinds=BK),
+    (_B, "field", "bufferMutex", "std::mutex"): dict(thms=["lockset_race_free", "tbuf_methods_atomic"], ops=_B_ALL, kinds=BK),
+    (_B, "method", "<ctor>", "void () =default"): dict(thms=["tbuf_linear", "tbuf_accept_complete"], ops=[_B + "::<ctor>()"], kinds=BK),
+    (_B, "method", "consume", "std::vector<T> ()"): dict(thms=["tbuf_linear", "tbuf_exactly_once", "tbuf_complete", "tbuf_accept_sound", "tbuf_quiescent_round"],
+                                                        ops=[_B + "::consume()"], kinds=BK),
+    (_B, "method", "empty", "bool () const"): dict(thms=["tbuf_obs_linear", "tbuf_round_consistent", "tbuf_quiescent_round"], ops=[_B + "::empty()"], kinds=BK),
+    (_B, "method", "push_back", "void (T &&)"): dict(thms=["tbuf_linear", "tbuf_membership"], ops=[_B + "::push_back(T&&)"], kinds=BK),
+    (_B, "method", "push_back", "void (const T &)"): dict(thms=["tbuf_linear", "tbuf_membership"], ops=[_B + "::push_back(const T&)"], kinds=BK),
+    (_B, "method", "size", "size_t () const"): dict(thms=["tbuf_obs_linear", "tbuf_size_bounded", "tbuf_quiescent_round"], ops=[_B + "::size()"], kinds=BK),
+    (_V, "field", "currentValue", "T"): dict(thms=["tval_order", "tval_ref_write", "lockset_race_free"], ops=[_V + "::get()", _V + "::ref()", _V + "::update()"], kinds=VK),
+    (_V, "field", "mutex", "std::mutex"): dict(thms=["lockset_race_free", "tval_granularity"], ops=[_V + "::operator=(const OtherType&)", _V + "::update()"], kinds=VK),
+    (_V, "field", "newValue", "std::atomic<bool>"): dict(thms=["lockset_race_free", "tval_granularity", "tval_update_true_iff_newer"],
+                                                        ops=[_V + "::operator=(const OtherType&)", _V + "::update()"], kinds=VK),
+    (_V, "field", "queuedValue", "T"): dict(thms=["tval_order", "lockset_race_free"], ops=[_V + "::operator=(const OtherType&)", _V + "::update()"], kinds=VK),
+    (_V, "method", "<ctor>", "template void (const OtherType &)"): dict(thms=["tval_ctor_value", "tval_order"], ops=[_V + "::<ctor>(const OtherType&)"], kinds=VK),
+    (_V, "method", "<ctor>", "void () =default"): dict(thms=["tval_update_idempotent"], ops=[_V + "::<ctor>()"], kinds=VK),
+    (_V, "method", "<dtor>", "void () =default"): dict(thms=[], ops=[_V + "::<ctor>()", _V + "::<ctor>(const OtherType&)"], kinds=VK,
+                                                      note="every constructed object is destroyed at scope exit under ASan; counted as constructions"),
+    (_V, "method", "get", "T ()"): dict(thms=["tval_order", "tval_ctor_value", "tval_assign_then_update"], ops=[_V + "::get()"], kinds=VK),
+    (_V, "method", "operator=", "TransactionalValue<T> &(const TransactionalValue<T> &)"): dict(
+        skip="cannot be called: its body calls the non-const ref() on the const argument, so any instantiation is ill-formed "
+             "(fact `copy_assignment_instantiable=0`, compile probe on every run); assignment from a value goes through the member template",
+        probe="copy_assignment_instantiable", expect=0),
+    (_V, "method", "operator=", "template TransactionalValue<T> &(const OtherType &)"): dict(
+        thms=["tval_order", "tval_assign_then_update", "tval_quiescent_update", "tval_last_value"], ops=[_V + "::operator=(const OtherType&)"], kinds=VK),
+    (_V, "method", "ref", "T &()"): dict(thms=["tval_ref_write", "tval_order"], ops=[_V + "::ref()", _V + "::ref()=write"], kinds=VK),
+    (_V, "method", "update", "bool ()"): dict(thms=["tval_update_true_iff_newer", "tval_update_idempotent", "tval_quiescent_update", "tval_last_value"],
+                                             ops=[_V + "::update()"], kinds=VK),
+}
+# implicitly-declared special members and signature facts, per instantiation (harness `facts`: type traits of the compiled templates).
+# Both classes hold a std::mutex: neither is copyable or movable.  TransactionalValue declares a destructor and a copy assignment,
+# so no move operations are declared; the traits report its copy/move assignment as *declared* (see the probe above for what it is worth).
+EXPECT_FACTS = {
+    _B: dict(default_constructible=1, copy_constructible=0, move_constructible=0, copy_assignable_declared=0, move_assignable_declared=0,
+             destructible=1, consume_returns_vector_by_value=1, size_returns_size_t=1, empty_returns_bool=1),
+    _V: dict(default_constructible=1, copy_constructible=0, move_constructible=0, copy_assignable_declared=1, move_assignable_declared=1,
+             destructible=1, constructible_from_value=1, assignable_from_value=1, get_returns_copy=1, ref_returns_mutable_reference=1,
+             update_returns_bool=1),
+}
+FACT_MEMBER = {"copy_constructible": "implicit copy constructor (deleted: std::mutex member)", "move_constructible": "implicit move constructor (not available)",
+               "copy_assignable_declared": "copy assignment", "move_assignable_declared": "move assignment", "default_constructible": "default constructor",
+               "destructible": "destructor"}
+INSTANTIATIONS = ["pod-struct", "int", "std::string", "std::vector<int>"]
+
+PROBE_TU = """#include "rkcommon/utility/TransactionalValue.h"
+void probe(rkcommon::utility::TransactionalValue<int> &a, const rkcommon::utility::TransactionalValue<int> &b) { a = b; }
+"""
+
+
+def inventory(ctx, iface, h_asan, inv_dir):
+    """Returns the evidence dict; appends to ctx.broken on any gap."""
+    inv = {}
+    counts = {}
+    for f in os.listdir(inv_dir):
+        for ln in open(os.path.join(inv_dir, f)):
+            k, _, n = ln.rpartition(" ")
+            try:
+                counts[k] = counts.get(k, 0) + int(n)
+            except ValueError:
+                pass
+    # compile probe(s)
+    probes = {}
+    tu = os.path.join(ctx.build, "probe_copy_assign.cpp")
+    open(tu, "w").write(PROBE_TU)
+    rc, out = vlib.sh(["g++", "-std=c++11", "-fsyntax-only", "-I" + ctx.repo, tu], timeout=120)
+    probes["copy_assignment_instantiable"] = 1 if rc == 0 else 0
+    thms = set(ctx.cov.get("theorems", []))
+    label = lambda t: "%s::%s [%s] %s" % (t[0], t[2], t[1], t[3])
+    for t in iface:
+        t = tuple(t)
+        e = COVER.get(t)
+        if e is None:
+            ctx.broken.append("inventory: declaration not in the COVER table (new member / overload / changed signature): " + label(t))
+            inv[label(t)] = {"status": "NOT IN TABLE"}
+            continue
+        if "skip" in e:
+            rec = {"out_of_scope": e["skip"]}
+            if "probe" in e:
+                rec["probe"] = {e["probe"]: probes.get(e["probe"])}
+                if probes.get(e["probe"]) != e["expect"]:
+                    ctx.broken.append("inventory: %s is listed as not callable, but the compile probe %s now gives %s: it must be brought into the model and harness"
+                                      % (label(t), e["probe"], probes.get(e["probe"])))
+            inv[label(t)] = rec
+            continue
+        ex = {}
+        for op in e["ops"]:
+            for k in e["kinds"]:
+                ex["%s@%s" % (op, k)] = counts.get("%s@%s" % (op, k), 0)
+        zero = [k for k, n in ex.items() if n == 0]
+        if zero:
+            ctx.broken.append("inventory: covered declaration %s was not executed in this run: %s" % (label(t), ", ".join(zero[:4])))
+        missing_thm = [n for n in e["thms"] if n not in thms]
+        if missing_thm:
+            ctx.broken.append("inventory: %s names theorems that do not exist: %s" % (label(t), missing_thm))
+        inv[label(t)] = {"theorems": e["thms"], "executions": ex}
+        if e.get("note"):
+            inv[label(t)]["note"] = e["note"]
+    for t in COVER:
+        if t not in [tuple(x) for x in iface]:
+            ctx.broken.append("inventory: COVER entry whose declaration vanished or changed signature: " + label(t))
+    # implicit special members / signature facts per instantiation
+    rc, out, err = ctx.run_exe(h_asan, ["facts"], timeout=60)
+    seen = {}
+    for ln in out.splitlines():
+        w = ln.split()
+        if len(w) > 2 and w[0] == "fact":
+            seen[w[1]] = {kv.split("=")[0]: int(kv.split("=")[1]) for kv in w[2:]}
+    facts = {}
+    for cls, exp in EXPECT_FACTS.items():
+        for ins in INSTANTIATIONS:
+            name = "%s<%s>" % (cls, ins)
+            got = seen.get(name)
+            if got is None:
+                ctx.broken.append("inventory: no facts for instantiation " + name)
+                continue
+            facts[name] = got
+            for k, v in exp.items():
+                if got.get(k) != v:
+                    ctx.broken.append("inventory: fact changed for %s: %s (%s) is %s, the models assume %s"
+                                      % (name, k, FACT_MEMBER.get(k, "signature"), got.get(k), v))
+            for k in got:
+                if k not in exp:
+                    ctx.broken.append("inventory: unexpected fact %s for %s" % (k, name))
+    return {"declarations": inv, "special_members_and_signatures": facts, "probes": probes,
+            "instantiations_executed": sorted({k.split("@")[1] for k, n in counts.items() if n}), "raw_counts": counts}
 
 
 # ------------------------------------------------------------ independent oracle (python), sequential
@@ -59,6 +198,8 @@ def oracle_seq(case):
                 if int(n_) > 0:
                     queued, new = int(st) + int(n_) - 1, True
                 outs.append("ok")
+            elif op[0] == "w":
+                cur = int(op[1:]); outs.append("ok")
             elif op == "u":
                 if new:
                     cur, queued, new = queued, None, False; outs.append("true")
@@ -97,6 +238,8 @@ def gen_V(r, maxlen):
         c = r.random()
         if c < 0.35:
             nxt += r.randint(1, 3); ops.append("a%d" % nxt)
+        elif c < 0.42:
+            ops.append("w%d" % r.randint(1, 60))
         elif c < 0.7:
             ops.append("u")
         elif c < 0.88:
@@ -108,7 +251,7 @@ def gen_V(r, maxlen):
 
 def exhaustive(length):
     alphaB = ["p0", "m1", "c", "s", "e"]
-    alphaV = ["a7", "a9", "u", "g"]
+    alphaV = ["a7", "a9", "u", "g", "w5"]
     for n in range(1, length + 1):
         for t in itertools.product(alphaB, repeat=n):
             yield ("B", "2", list(t))
@@ -226,6 +369,10 @@ def run(ctx):
         return
 
     ctx.log("model and harnesses built")
+    inv_dir = os.path.join(ctx.build, "inv")
+    shutil.rmtree(inv_dir, ignore_errors=True)
+    os.makedirs(inv_dir)
+    os.environ["C12_INV_DIR"] = inv_dir
     # ------------------------------------------------------ (4) sequential differential
     r = ctx.rng("seq")
     base = []
@@ -241,7 +388,7 @@ def run(ctx):
         base.append(("V", "7", ["a3", "u", "A%d:10" % n_, "u", "g", "A%d:%d" % (n_, 10 + n_), "u", "r"]))
     exh = list(exhaustive(ctx.pick(5, 6)))
     base += exh
-    cases = ["%s %s %s %s" % (k, kind, a, " ".join(ops)) for (k, a, ops) in base for kind in KINDS]
+    cases = ["%s %s %s %s" % (k, kind, a, " ".join(ops)) for (k, a, ops) in base for kind in (KINDS if k == "B" else KINDS + ["het"])]
     mism, crashes, mlines = vlib.differential(ctx, cases, model, [("seq/asan", h_asan, ["seq"])])
     ctx.count(len(cases))
     hist = {}
@@ -284,7 +431,7 @@ def run(ctx):
             ctx.violation("single-threaded history: the real %s disagrees with the sequential specification"
                           % ("TransactionalBuffer" if t[0] == "B" else "TransactionalValue"),
                           {"case": line, "format": "B <payload> <nprod> ops (p<i>/m<i> push by producer i, c consume, s size, e empty) | "
-                                                   "V <payload> <initial> ops (a<v> assign, u update, g get, r ref)",
+                                                   "V <payload> <initial> ops (a<v> assign, A<n>:<s> n assignments, w<v> write through ref(), u update, g get, r ref; payload het = TransactionalValue<std::string> fed const char*)",
                            "observed": out.strip(), "required": oracle_seq(line), "model": ml if small == ops else None,
                            "original_case": cases[i]})
             reported = True
@@ -441,6 +588,12 @@ def run(ctx):
     for res_ in [r_ for r_ in results if r_["args"][0] == "stressbuf"][:1] + [r_ for r_ in results if r_["args"][0] == "stressval"][:1] + [r_ for r_ in results if r_["args"][0] == "stressobs"][:1]:
         ctx.sample({"stress": " ".join(res_["args"]), "sanitizer": res_["san"], "harness": res_["out"][:200], "model": res_["verdict"]})
 
+    ctx.cov["inventory"] = inventory(ctx, iface, h_asan, inv_dir)
+    for b_ in ctx.broken:
+        if b_.startswith("inventory:"):
+            ctx.log(b_)
+    if sorted(COVER) != sorted(expected):
+        ctx.broken.append("inventory: COVER (props/C12/check.py) and Model.expected_members (coq/C12/Model.v) list different declarations")
     ctx.rule = ("sequential: random histories (<=60 ops, 1-8 producers; TransactionalValue <=40 ops) and all histories up to length %d over a 5/4-op "
                 "alphabet, each on trivially-copyable, std::string and std::vector<int> payloads, model vs real code; non-trivial = two non-empty "
                 "batches or a batch with >=2 elements / both update() results seen.  stress: %d multi-threaded runs (1-8 producers x up to %d pushes of "
